@@ -158,6 +158,17 @@ func render(v any) string {
 	return fmt.Sprintf("%v", v)
 }
 
+// blocks the scripted node reports without transactions (hence without
+// receipts, logs and traces)
+var nodeEmpty = map[uint64]bool{}
+
+func txsOf(n uint64) uint64 {
+	if nodeEmpty[n] {
+		return 0
+	}
+	return pTxs
+}
+
 func mkLog(n, i uint64) map[string]any {
 	return map[string]any{
 		"address": logAddr(i), "topics": []string{transferSig, word(pat(0xf0, n, i, 20)), word(pat(0xd0, n, i, 20))},
@@ -177,8 +188,8 @@ func mkTx(n, i uint64) map[string]any {
 
 func mkBlock(n uint64, full bool) map[string]any {
 	b := map[string]any{"number": hx(n), "hash": pat(0xb0, n>>8, n, 32), "parentHash": pat(0xb0, (n-1)>>8, n-1, 32), "timestamp": hx(1700000000 + 12*n), "logsBloom": "0x00"}
-	var txs []any
-	for i := uint64(0); i < pTxs; i++ {
+	txs := []any{}
+	for i := uint64(0); i < txsOf(n); i++ {
 		if full {
 			txs = append(txs, mkTx(n, i))
 		} else {
@@ -190,8 +201,8 @@ func mkBlock(n uint64, full bool) map[string]any {
 }
 
 func mkReceipts(n uint64) []any {
-	var rs []any
-	for i := uint64(0); i < pTxs; i++ {
+	rs := []any{}
+	for i := uint64(0); i < txsOf(n); i++ {
 		rs = append(rs, map[string]any{
 			"blockHash": pat(0xb0, n>>8, n, 32), "blockNumber": hx(n), "transactionHash": pat(0xc0, n, i, 32), "transactionIndex": hx(i), "type": "0x2",
 			"from": pat(0xf0, n, i, 20), "to": pat(0xd0, n, i, 20), "status": "0x1", "gasUsed": hx(21000 + 100*n + i),
@@ -202,8 +213,8 @@ func mkReceipts(n uint64) []any {
 }
 
 func mkTraces(n uint64) []any {
-	var out []any
-	for i := uint64(0); i < pTxs; i++ {
+	out := []any{}
+	for i := uint64(0); i < txsOf(n); i++ {
 		for k := uint64(0); k < pTraces; k++ {
 			out = append(out, map[string]any{
 				"blockHash": pat(0xb0, n>>8, n, 32), "blockNumber": n, "transactionHash": pat(0xc0, n, i, 32), "transactionPosition": i,
@@ -249,7 +260,7 @@ func answer(r rpcReq) map[string]any {
 		to, _ := strconv.ParseUint(strings.TrimPrefix(f.To, "0x"), 16, 64)
 		logs := []any{}
 		for n := from; n <= to; n++ {
-			for i := uint64(0); i < pTxs; i++ {
+			for i := uint64(0); i < txsOf(n); i++ {
 				if nodeHonourAddr && len(f.Address) > 0 {
 					keep := false
 					for _, a := range f.Address {
@@ -536,9 +547,13 @@ func runSetN(t *testing.T, ts *httptest.Server, mode string, set []string, limit
 	if len(fails) > 0 {
 		return fails
 	}
-	wantRows := pTxs * int(limit)
-	if mode == "trace" {
-		wantRows = pTxs * pTraces * int(limit)
+	wantRows := 0
+	for n := uint64(pStart); n < pStart+limit; n++ {
+		if mode == "trace" {
+			wantRows += int(txsOf(n)) * pTraces
+		} else {
+			wantRows += int(txsOf(n))
+		}
 	}
 	if len(conn.rows) != wantRows {
 		return []string{fmt.Sprintf("%s %v plan=%q: %d rows stored, want %d", mode, set, filter.String(), len(conn.rows), wantRows)}
@@ -566,7 +581,7 @@ func runSetN(t *testing.T, ts *httptest.Server, mode string, set []string, limit
 		if mode == "trace" {
 			k, _ = strconv.ParseUint(render(row[col("trace_action_idx")]), 10, 64)
 		}
-		if seen[[3]uint64{bn, i, k}] || i >= pTxs || k >= pTraces || bn < pStart || bn >= pStart+limit {
+		if seen[[3]uint64{bn, i, k}] || i >= txsOf(bn) || k >= pTraces || bn < pStart || bn >= pStart+limit {
 			fails = append(fails, fmt.Sprintf("%s %v plan=%q: duplicate or out-of-range row identity block_num=%d tx_idx=%d trace_action_idx=%d", mode, set, filter.String(), bn, i, k))
 			continue
 		}
@@ -716,6 +731,27 @@ func TestVerifPlanBounded(t *testing.T) {
 				}
 			}
 			sharedClient = nil
+		}
+	}
+	// blocks without transactions inside a batch: the blocks around them must
+	// still get all their rows (6 data plans x batches of 3 with the first,
+	// the middle, the last, the first two or all blocks empty)
+	for _, pl := range plans {
+		for _, empty := range [][]uint64{{0}, {1}, {2}, {0, 1}, {0, 1, 2}} {
+			for _, e := range empty {
+				nodeEmpty[pStart+e] = true
+			}
+			cases++
+			// the client rejects an empty trace_block answer outright (it
+			// cannot tell an empty block from a node that has no traces):
+			// an error is not a wrong value, so it is accepted for the trace plan
+			for _, msg := range runSetN(t, ts, pl.mode, pl.set, 3, pl.mode == "trace") {
+				nfail++
+				if nfail <= 12 {
+					fmt.Printf("BOUNDED-FAIL batch of 3 with empty blocks at offsets %v: %s\n", empty, msg)
+				}
+			}
+			nodeEmpty = map[uint64]bool{}
 		}
 	}
 	fmt.Printf("BOUNDED cases=%d failures=%d exhaustive=true\n", cases, nfail)
